@@ -7,18 +7,18 @@ DEF="-DPF_WITH_DOUBLE -DPF_MAXARGS=4"
 # the engine, ASan-instrumented: print_f's digit buffer is a stack object, so an under-run is a report.
 # -fno-finite-loops: a loop the source cannot leave must be observed as a hang, not deleted by the optimiser.
 par clang -c -O1 -g $SAN -fno-finite-loops -I$REPO $REPO/igris/util/printf_impl.c -o $BUILD/printf_impl.o
-par clang++ -std=c++17 -c -O1 -g $DEF -I$REPO -I$MC -I$H $H/c13_printf_float.cpp -o $BUILD/h.o
-par clang++ -std=c++17 -c -O0 $DEF -I$REPO -I$MC -I$H $H/c13_dispatch.cpp -o $BUILD/d.o
-par clang++ -std=c++17 -O2 -c -I$MC $MC/mc.cpp -o $BUILD/mc.o
+par clang++ -std=c++20 -c -O1 -g $DEF -I$REPO -I$MC -I$H $H/c13_printf_float.cpp -o $BUILD/h.o
+par clang++ -std=c++20 -c -O0 $DEF -I$REPO -I$MC -I$H $H/c13_dispatch.cpp -o $BUILD/d.o
+par clang++ -std=c++20 -O2 -c -I$MC $MC/mc.cpp -o $BUILD/mc.o
 # re-entrancy run: the engine (and the libc entry points on top of it) under ThreadSanitizer, two threads on the
 # controlled scheduler (sched.cpp and mc.cpp stay uninstrumented: TSan then sees only what the code under test does)
 TF="-O1 -g -DNDEBUG -fsanitize=thread -fno-omit-frame-pointer -I$REPO -I$MC" # the TSan build is also the release (NDEBUG) build
 par gcc -c $TF $REPO/igris/util/printf_impl.c -o $BUILD/printf_impl_tsan.o
 par gcc -c $TF -fno-builtin -Wno-implicit-function-declaration $REPO/compat/libc/stdio/sprintf.c -o $BUILD/sprintf_tsan.o
 par gcc -c $TF -fno-builtin -Wno-implicit-function-declaration $REPO/compat/libc/stdio/fdprintf.c -o $BUILD/fdprintf_tsan.o
-par g++ -std=c++17 -c $TF -DREENT_ID='"C13"' -DREENT_FLOAT $H/c13_reentrancy.cpp -o $BUILD/h_tsan.o
-par g++ -std=c++17 -O2 -g -I$MC -c $MC/sched/sched.cpp -o $BUILD/sched.o
-par g++ -std=c++17 -O2 -c -I$MC $MC/mc.cpp -o $BUILD/mc_gcc.o
+par g++ -std=c++20 -c $TF -DREENT_ID='"C13"' -DREENT_FLOAT $H/c13_reentrancy.cpp -o $BUILD/h_tsan.o
+par g++ -std=c++20 -O2 -g -I$MC -c $MC/sched/sched.cpp -o $BUILD/sched.o
+par g++ -std=c++20 -O2 -c -I$MC $MC/mc.cpp -o $BUILD/mc_gcc.o
 # build-mode variant of the engine: the other compiler at -O2, release mode (-DNDEBUG) and plain char unsigned
 # (-funsigned-char); no sanitizer, harness objects shared with the main build
 par gcc -c -O2 -g -DNDEBUG -funsigned-char -I$REPO $REPO/igris/util/printf_impl.c -o $BUILD/printf_impl_var.o
